@@ -107,6 +107,13 @@ structure DProc where
   pc : DPc := .fresh
   deriving Repr, DecidableEq, Inhabited
 
+/-- ghost: an item reached the exit -/
+structure Arr where
+  q : Nat          -- put ordinal
+  t : Nat          -- instant at which it was offered at the exit
+  ti : Nat         -- its total interruption time at that instant
+  deriving Repr, DecidableEq, Inhabited
+
 structure CCfg where
   cap : Nat
   p1 : Nat
@@ -159,7 +166,7 @@ structure CBelt where
   newReady : List Nat := []
   -- ghost
   entered : List CItem := []
-  readyAt : List (Nat × Nat) := []
+  arrivals : List Arr := []
   gotLog : List Item := []
   stuck : List Nat := []                    -- put ordinals whose move process ended without delivering (D12)
   deriving Repr, Inhabited
@@ -485,7 +492,7 @@ def arrive (s : CBelt) (p : MProc) : CBelt :=
     let rest := s.items.erase e
     if s.ready.length + rest.length < s.cfg.cap then
       let e' := { e with readyEntry := s.now }
-      let s1 := { s with items := rest, ready := s.ready ++ [e'], readyAt := s.readyAt ++ [(p.q, s.now)],
+      let s1 := { s with items := rest, ready := s.ready ++ [e'], arrivals := s.arrivals ++ [({ q := p.q, t := s.now, ti := e.totalInt } : Arr)],
                          newReady := s.newReady ++ [e.item.id] }
       let s2 := if s1.ri == .pending then ({ s1 with ri := .trig }).sched s1.now false (.shot .ri s1.riGen) else s1
       ((s2.trigGet).trigPut).endProc p
@@ -512,15 +519,26 @@ def initM (s : CBelt) (q : Nat) : CBelt :=
     let s1 := s.setItem q (fun it => { it with totalInt := 0, intStart := none })
     s1.startPhase { p with total := 0 } 1 s.cfg.p1
 
+/-- the move process waits on Timeout u -/
+def waitsOn (u : Nat) (p : MProc) : Bool :=
+  match p.pc with
+  | .run _ _ _ t => t == u
+  | _ => false
+
+def sleepsOn (u : Nat) (d : DProc) : Bool :=
+  match d.pc with
+  | .sleep t => t == u
+  | _ => false
+
 /-- a Timeout is processed: whoever waits on it continues -/
 def onTimeout (s : CBelt) (u : Nat) : CBelt :=
-  match s.procs.find? (fun p => match p.pc with | .run _ _ _ t => t == u | _ => false) with
+  match s.procs.find? (waitsOn u) with
   | some p =>
     match p.pc with
     | .run 1 _ _ _ => (s.sched s.now false .p1e).startPhase p 1 0       -- phase 1 over: its event succeeds
     | _ => s.startPhase p 2 0
   | none =>
-    match s.dprocs.find? (fun d => match d.pc with | .sleep t => t == u | _ => false) with
+    match s.dprocs.find? (sleepsOn u) with
     | some d =>
       let s1 := { s with dprocs := s.dprocs.filter (fun x => x.d != d.d) }
       { (s1.interruptItem d.itemId) with activeDelayed := dictPop s1.activeDelayed d.itemId }
